@@ -21,12 +21,13 @@ import (
 
 // Clause is one requires/ensures/invariant line.
 type Clause struct {
-	Name string
-	Src  string
-	Expr *Spec
-	File string
-	Line int
-	Tags []string // property ids this clause serves (from the name prefix "C06/...")
+	Name    string
+	Src     string
+	Expr    *Spec
+	File    string
+	Line    int
+	Tags    []string // property ids this clause serves (from the name prefix "C06/...")
+	Assumed bool     // used at call sites, not proved on the body
 }
 
 // StableDecl: fields of a struct type that only the listed functions assign.
@@ -47,41 +48,42 @@ type Spec struct {
 }
 
 type Contract struct {
-	Key            string // "(Keeper).Borrow", "(*Commitments).AddCommittedTokens", "FuncName"
-	PkgPath        string
-	File           string
-	Line           int
-	Requires       []*Clause
-	Ensures        []*Clause
-	OnPanic        []*Clause // obligations on panicking exits
-	Assumes        []*Clause // state invariants assumed at entry (not proved at call sites; listed as assumptions)
-	Callers        []*Clause // the only functions allowed to call this one (Src is the comma-separated list)
-	Commutes       []*Clause // two calls (arguments X and X2) commute on the ghost world when the clause holds
-	Mints          []*Clause // for every bank mint on a path and every denom d with non-zero amount
-	Burns          []*Clause // likewise for burns
-	SupplyWrapper  bool      // forwards its coins argument to a bank mint/burn: its callers are the sites
-	MigrationOnly  bool      // must be unreachable from message and block entry points
-	Modifies       []string
-	HasMod         bool
-	Bounds         map[string]int
-	NoPanic        bool
-	Inline         bool
-	Entry          bool // an entry point of the chain (message handler or block function)
-	Reader         bool // reads the invariant's state only; its callers need no contract
-	InlineOwn      bool
-	CallersAssumed string
-	Instances      []ast.Expr
-	Trusted        bool // assumed, not verified (listed in the evidence as an assumption)
-	Derived        string
-	HavocOnly      bool
-	FrameOnly      bool
-	Pure           bool
-	Alias          []string // positional parameter names of the interface method (receiver first)
-	Iface          bool     // contract of an interface method (hooks, external keepers)
-	DecAbs         bool
-	Foralls        map[string]smt.Sort // implicitly universally quantified identifiers
-	Lets           []letDecl
-	Fn             *ssa.Function
+	Key               string // "(Keeper).Borrow", "(*Commitments).AddCommittedTokens", "FuncName"
+	PkgPath           string
+	File              string
+	Line              int
+	Requires          []*Clause
+	Ensures           []*Clause
+	OnPanic           []*Clause // obligations on panicking exits
+	Assumes           []*Clause // state invariants assumed at entry (not proved at call sites; listed as assumptions)
+	Callers           []*Clause // the only functions allowed to call this one (Src is the comma-separated list)
+	Commutes          []*Clause // two calls (arguments X and X2) commute on the ghost world when the clause holds
+	Mints             []*Clause // for every bank mint on a path and every denom d with non-zero amount
+	Burns             []*Clause // likewise for burns
+	SupplyWrapper     bool      // forwards its coins argument to a bank mint/burn: its callers are the sites
+	MigrationOnly     bool      // must be unreachable from message and block entry points
+	Modifies          []string
+	HasMod            bool
+	Bounds            map[string]int
+	NoPanic           bool
+	Inline            bool
+	Entry             bool // an entry point of the chain (message handler or block function)
+	Reader            bool // reads the invariant's state only; its callers need no contract
+	InlineOwn         bool
+	CallersAssumed    string
+	CallersAssumedFor map[string]string
+	Instances         []ast.Expr
+	Trusted           bool // assumed, not verified (listed in the evidence as an assumption)
+	Derived           string
+	HavocOnly         bool
+	FrameOnly         bool
+	Pure              bool
+	Alias             []string // positional parameter names of the interface method (receiver first)
+	Iface             bool     // contract of an interface method (hooks, external keepers)
+	DecAbs            bool
+	Foralls           map[string]smt.Sort // implicitly universally quantified identifiers
+	Lets              []letDecl
+	Fn                *ssa.Function
 }
 
 type letDecl struct {
@@ -340,7 +342,7 @@ func (ss *SpecSet) directive(cur **Contract, pkgPath, file string, ln int, body 
 			}
 		}
 		(*cur).Callers = append((*cur).Callers, c)
-	case "requires", "ensures", "onpanic", "mints", "burns", "commutes", "assumes":
+	case "requires", "ensures", "assumed-ensures", "onpanic", "mints", "burns", "commutes", "assumes":
 		if *cur == nil {
 			return fail(fmt.Errorf("%s outside a func block", word))
 		}
@@ -352,6 +354,11 @@ func (ss *SpecSet) directive(cur **Contract, pkgPath, file string, ln int, body 
 		case "requires":
 			(*cur).Requires = append((*cur).Requires, c)
 		case "ensures":
+			(*cur).Ensures = append((*cur).Ensures, c)
+		case "assumed-ensures":
+			// a postcondition used at call sites but NOT proved on the body: an explicit,
+			// reported assumption (the reason goes in the comment above it)
+			c.Assumed = true
 			(*cur).Ensures = append((*cur).Ensures, c)
 		case "onpanic":
 			(*cur).OnPanic = append((*cur).OnPanic, c)
@@ -510,7 +517,16 @@ func (ss *SpecSet) directive(cur **Contract, pkgPath, file string, ln int, body 
 	case "callers-assumed":
 		// the preconditions of this function are assumed at its call sites (not followed
 		// upwards by the closure scan); reported as an assumption
-		(*cur).CallersAssumed = rest
+		// optional leading property id: `callers-assumed C01: reason` cuts the closure of that
+		// property only
+		if (*cur).CallersAssumedFor == nil {
+			(*cur).CallersAssumedFor = map[string]string{}
+		}
+		if m := regexp.MustCompile(`^(C[0-9][0-9])\s*:\s*(.*)$`).FindStringSubmatch(rest); m != nil {
+			(*cur).CallersAssumedFor[m[1]] = m[2]
+		} else {
+			(*cur).CallersAssumed = rest
+		}
 	case "reader", "other-tables":
 		// the (checked) frame of this function excludes the invariant's tables: its callers
 		// need no contract on its account
